@@ -99,3 +99,11 @@ for _pid in ("C07", "C08", "C13", "C16"):
 # on game.py and reported for the methods that property's code can reach (game.rule_game_substrate; no-op when nothing is reachable)
 for _pid, _p in PROPERTIES.items():
     _p["rules"].append(game.rule_game_substrate)
+
+for _pid in ("C07", "C08", "C09", "C12", "C13", "C16"):
+    PROPERTIES[_pid]["rules"].insert(-1, gym.rule_env_observers_pure)
+
+# single-use iterators consumed twice (L1), reported for the functions in the property's scope
+for _pid, _p in PROPERTIES.items():
+    if gameplay.rule_l1_lazy_reuse not in _p["rules"]:
+        _p["rules"].insert(-1, gameplay.rule_l1_lazy_reuse)
